@@ -384,8 +384,34 @@ func (w *World) extractPolicy(r *Report) ([]policyPath, *ssa.Function) {
 	}
 	outer := w.SSAFunc(mw.Obj)
 	var fn *ssa.Function
+	// the access check: HasAccess itself, or a function of the package that runs it over the request's namespaces
+	// (`ns, denied := firstDeniedNamespace(policy, requiredRole, r)`) — the role it checks is then the argument that
+	// feeds the parameter handed to HasAccess
+	roleArgOf := func(c *ssa.Call) ssa.Value {
+		if callsTo(ha)(c) {
+			return c.Call.Args[1]
+		}
+		g := c.Call.StaticCallee()
+		if g == nil || g.Pkg != outer.Pkg || len(g.Blocks) == 0 || len(c.Call.Args) != len(g.Params) {
+			return nil
+		}
+		for _, hc := range findInstrs(g, callsTo(ha)) {
+			if p := capturedParam(hc.(*ssa.Call).Call.Args[1]); p != nil && p.Parent() == g {
+				for i, gp := range g.Params {
+					if gp == p {
+						return c.Call.Args[i]
+					}
+				}
+			}
+		}
+		return nil
+	}
+	isAccessCheck := func(in ssa.Instruction) bool {
+		c, ok := in.(*ssa.Call)
+		return ok && roleArgOf(c) != nil
+	}
 	for _, a := range outer.AnonFuncs {
-		if len(findInstrs(a, callsTo(ha))) > 0 {
+		if len(findInstrs(a, isAccessCheck)) > 0 {
 			fn = a
 		}
 	}
@@ -393,12 +419,13 @@ func (w *World) extractPolicy(r *Report) ([]policyPath, *ssa.Function) {
 		r.Und("WEB-3", "anchor:auth-closure", w.Pos(mw.Decl.Pos()), "the middleware closure that calls HasAccess was not found")
 		return nil, nil
 	}
-	target := findInstrs(fn, callsTo(ha))[0].(*ssa.Call)
+	target := findInstrs(fn, isAccessCheck)[0].(*ssa.Call)
+	roleArg := roleArgOf(target)
 	var paths []policyPath
 	// the role may be computed by a helper of the package from the request's method and path
 	// (`requiredRole := requiredRoleFor(r.Method, r.URL.Path)`): its decision paths are enumerated like the closure's
 	var helperPaths []policyPath
-	if hc, ok := target.Call.Args[1].(*ssa.Call); ok {
+	if hc, ok := roleArg.(*ssa.Call); ok {
 		if g := hc.Call.StaticCallee(); g != nil && g.Pkg == fn.Pkg && len(g.Blocks) > 0 && len(hc.Call.Args) == len(g.Params) {
 			bound := true
 			for i, a := range hc.Call.Args {
@@ -455,7 +482,7 @@ func (w *World) extractPolicy(r *Report) ([]policyPath, *ssa.Function) {
 		}
 		trail = append(trail, b)
 		if b == target.Block() {
-			role, ok := resolve(target.Call.Args[1], trail, 0)
+			role, ok := resolve(roleArg, trail, 0)
 			if !ok && len(helperPaths) > 0 {
 				for _, hp := range helperPaths {
 					nPaths++
@@ -961,8 +988,108 @@ func ruleWEBauth(w *World, r *Report) {
 			}
 		}
 	}
+	adminEdgesOf := func(f *ssa.Function) map[edgeKey]bool {
+		out := map[edgeKey]bool{}
+		for _, b := range f.Blocks {
+			for _, in := range b.Instrs {
+				bo, ok := in.(*ssa.BinOp)
+				if !ok || (bo.Op != token.NEQ && bo.Op != token.EQL) {
+					continue
+				}
+				if s, ok := stringOf(bo.Y); ok && s == "admin" && isFieldLoad(bo.X, "Role") {
+					t, f := condEdges(bo)
+					eq := t
+					if bo.Op == token.NEQ {
+						eq = f
+					}
+					for _, e := range eq {
+						out[e] = true
+					}
+				}
+			}
+		}
+		return out
+	}
 	// the namespace loop runs at least once when the extraction never returns an empty list (checked below)
 	ok, wit2 := mustPassGuard2(fn, serve, callsTo(ha), callValue, true, mergeEdges(bypass, adminEdges), zeroIterEdges(fn, callsTo(ha)))
+	if !ok && len(findInstrs(fn, callsTo(ha))) == 0 {
+		// the per-namespace check is a function of its own that reports (namespace, denied): inside it "not denied" is
+		// returned only after HasAccess said yes for every namespace (or for an admin policy), and the closure serves only
+		// on its "not denied" answer
+		for _, in := range findInstrs(fn, func(in ssa.Instruction) bool { _, isC := in.(*ssa.Call); return isC }) {
+			c := in.(*ssa.Call)
+			h := c.Call.StaticCallee()
+			if h == nil || h.Pkg != fn.Pkg || len(findInstrs(h, callsTo(ha))) == 0 {
+				continue
+			}
+			bi := -1
+			for i := 0; i < h.Signature.Results().Len(); i++ {
+				if isBoolType(h.Signature.Results().At(i).Type()) {
+					bi = i
+				}
+			}
+			if bi < 0 {
+				continue
+			}
+			// the answer given when HasAccess says no
+			var denied *bool
+			consistent := true
+			for _, hc := range findInstrs(h, callsTo(ha)) {
+				_, fe := condEdges(hc.(*ssa.Call))
+				for _, e := range fe {
+					for _, b := range h.Blocks {
+						rt, isRet := b.Instrs[len(b.Instrs)-1].(*ssa.Return)
+						if !isRet || len(rt.Results) <= bi {
+							continue
+						}
+						// reached without another HasAccess in between
+						if reach, _ := (pathQuery{fn: h, target: func(x ssa.Instruction) bool { return x == ssa.Instruction(rt) }, avoid: callsTo(ha)}).find(ipos{e.from.Succs[e.succ], -1}); !reach {
+							continue
+						}
+						k, isK := retVal(rt, bi).(*ssa.Const)
+						if !isK || k.Value == nil {
+							consistent = false
+							continue
+						}
+						v := constant.BoolVal(k.Value)
+						if denied != nil && *denied != v {
+							consistent = false
+						}
+						denied = &v
+					}
+				}
+			}
+			if denied == nil || !consistent {
+				continue
+			}
+			granted := func(x ssa.Instruction) bool {
+				rt, isRet := x.(*ssa.Return)
+				if !isRet || len(rt.Results) <= bi {
+					return false
+				}
+				k, isK := retVal(rt, bi).(*ssa.Const)
+				return !isK || k.Value == nil || constant.BoolVal(k.Value) != *denied
+			}
+			inner, w1 := mustPassGuard2(h, granted, callsTo(ha), callValue, true, adminEdgesOf(h), zeroIterEdges(h, callsTo(ha)))
+			cc := c
+			outer, w2 := mustPassGuard(fn, serve, func(x ssa.Instruction) bool { return x == ssa.Instruction(cc) }, func(x ssa.Instruction) ssa.Value {
+				for _, ref := range *cc.Referrers() {
+					if ex, isEx := ref.(*ssa.Extract); isEx && ex.Index == bi {
+						return ex
+					}
+				}
+				if h.Signature.Results().Len() == 1 {
+					return cc
+				}
+				return nil
+			}, !*denied, mergeEdges(bypass, adminEdges))
+			if inner && outer {
+				ok, wit2 = true, nil
+			} else {
+				wit2 = append(w1, w2...)
+			}
+		}
+	}
 	if ex := w.Func("internal/server", "extractNamespacesFromRequest"); ex != nil {
 		efn := w.SSAFunc(ex.Obj)
 		nonEmpty := true
@@ -1126,34 +1253,57 @@ func ruleWEB4(w *World, r *Report) {
 		"the middleware derives the namespace from "+strings.Join(extra, ", ")+", a location the handlers do not address indexes through: a token restricted to tenant A sends the decoy there and names tenant B where the handler looks")
 	// body field name
 	bodyFields := map[string]bool{}
-	exInfo := ex.Pkg.TypesInfo
-	ast.Inspect(ex.Decl.Body, func(n ast.Node) bool {
-		se, ok := n.(*ast.SelectorExpr)
-		if !ok {
-			return true
+	// (decoding the buffered body may be a function of its own, handed the request path)
+	exHelpers := w.extractedHelpers(efn)
+	for _, f := range append([]*ssa.Function{efn}, exHelpers...) {
+		for _, in := range findInstrs(f, func(in ssa.Instruction) bool { _, isC := in.(*ssa.Call); return isC }) {
+			c := in.(*ssa.Call)
+			if g := c.Call.StaticCallee(); g != nil && g.Pkg == efn.Pkg && len(c.Call.Args) == len(g.Params) {
+				for i, a := range c.Call.Args {
+					switch {
+					case isReqField(a, "Method"):
+						reqParamField[g.Params[i]] = "Method"
+					case isReqField(a, "Path"):
+						reqParamField[g.Params[i]] = "Path"
+					}
+				}
+			}
 		}
-		if sel := exInfo.Selections[se]; sel != nil {
-			if v, ok := sel.Obj().(*types.Var); ok && v.IsField() {
-				if st, ok := derefStruct(sel.Recv()); ok {
-					for i := 0; i < st.NumFields(); i++ {
-						if st.Field(i) == v {
-							if t := reflectTag(st.Tag(i), "json"); t != "" {
-								bodyFields[t] = true // a decoded body field the extraction actually reads
+	}
+	for _, exd := range append([]*FuncInfo{ex}, w.helperDecls(ex)...) {
+		exInfo := exd.Pkg.TypesInfo
+		ast.Inspect(exd.Decl.Body, func(n ast.Node) bool {
+			se, ok := n.(*ast.SelectorExpr)
+			if !ok {
+				return true
+			}
+			if sel := exInfo.Selections[se]; sel != nil {
+				if v, ok := sel.Obj().(*types.Var); ok && v.IsField() {
+					if st, ok := derefStruct(sel.Recv()); ok {
+						for i := 0; i < st.NumFields(); i++ {
+							if st.Field(i) == v {
+								if t := reflectTag(st.Tag(i), "json"); t != "" {
+									bodyFields[t] = true // a decoded body field the extraction actually reads
+								}
 							}
 						}
 					}
 				}
 			}
-		}
-		return true
-	})
+			return true
+		})
+	}
 	// an alternative namespace field (anything but index_name) counts only on routes whose handler reads it. The extraction
 	// returns the fields that are PRESENT: a field honoured on a route whose handler does not know it is a decoy — the
 	// token names its own namespace there, omits index_name, and the handler falls back to its default index.
 	{
 		routePaths := func(field string) (paths []string, everywhere bool) {
 			everywhere = true
-			for _, b := range efn.Blocks {
+			var blocks []*ssa.BasicBlock
+			for _, f := range append([]*ssa.Function{efn}, exHelpers...) {
+				blocks = append(blocks, f.Blocks...)
+			}
+			for _, b := range blocks {
 				for _, in := range b.Instrs {
 					fa, ok := in.(*ssa.FieldAddr)
 					if !ok {
@@ -1237,7 +1387,15 @@ func ruleWEB4(w *World, r *Report) {
 	if mw := w.Func("internal/server", "Server.authMiddleware"); mw != nil {
 		ha := w.FuncObj("pkg/auth", "APIKeyPolicy.HasAccess")
 		okAll := false
-		for _, cf := range closuresOf(w.SSAFunc(mw.Obj)) {
+		scope := closuresOf(w.SSAFunc(mw.Obj))
+		for _, cf := range closuresOf(w.SSAFunc(mw.Obj)) { // (the per-namespace check may be a function of its own)
+			for _, in := range findInstrs(cf, func(in ssa.Instruction) bool { _, isC := in.(*ssa.Call); return isC }) {
+				if h := in.(*ssa.Call).Call.StaticCallee(); h != nil && h.Pkg == cf.Pkg && len(findInstrs(h, callsTo(ha))) > 0 {
+					scope = append(scope, h)
+				}
+			}
+		}
+		for _, cf := range scope {
 			for _, in := range findInstrs(cf, callsTo(ha)) {
 				c := in.(*ssa.Call)
 				// namespace argument derives from an element of the extraction's result (range) or from its string result
